@@ -21,7 +21,8 @@ pub fn inverse_gamma_lr<T: MomTropFloat>(
         epsilon_tolerance.to_f64(),
     );
 
-    if res.is_nan() {
+    // only a finite, strictly positive quantile is a value (e.g. -ln(1 - p) is -0.0 for p < 2^-53)
+    if !(res.is_finite() && res > 0.0) {
         Err(GammaError {})
     } else {
         Ok(a.from_f64(res))
